@@ -142,7 +142,8 @@ def unchanged(props, tier_args):
 
 def main():
     ap = argparse.ArgumentParser()
-    ap.add_argument("what", nargs="?", default="all", choices=("determinism", "mutants", "seeded", "unchanged", "all"))
+    ap.add_argument("what", nargs="?", default="all", choices=("determinism", "mutants", "seeded", "unchanged", "all", "patch"))
+    ap.add_argument("--patch", default=None)
     ap.add_argument("--props", default="C06,C07,C11,C12,C19")
     ap.add_argument("--only", default=None)
     ap.add_argument("--seeds", type=int, default=6)
@@ -152,6 +153,10 @@ def main():
     props = a.props.split(",")
     tier_args = ["--tier", a.tier]
     bad = 0
+    if a.what == "patch":
+        for prop in props:
+            if not one_mutant(os.path.basename(a.patch), prop, a.patch, 1, tier_args):
+                bad += 1
     if a.what in ("determinism", "all"):
         bad += determinism(props, list(range(1000, 1000 + a.seeds)), a.runs)
     if a.what in ("unchanged", "all"):
